@@ -590,15 +590,20 @@ enum Route {
     FromScoresPairs,
     /// Scoring::new(..).yclip(c).xclip(a) then the two suffix setters override
     ScoringNewPairsThenSuffix,
+    /// struct literal whose `match_scores` field (an undocumented hint, used by the banded
+    /// aligner's band heuristic only) does not describe `match_fn`: the documented model is
+    /// defined by `match_fn` ("function that returns the score for substitutions")
+    LiteralForeignHint,
 }
 
-const ROUTES: [Route; 6] = [
+const ROUTES: [Route; 7] = [
     Route::AlignerNew,
     Route::AlignerWithCapacity,
     Route::ScoringNewFour,
     Route::FromScoresFourReversed,
     Route::FromScoresPairs,
     Route::ScoringNewPairsThenSuffix,
+    Route::LiteralForeignHint,
 ];
 
 impl Route {
@@ -610,6 +615,7 @@ impl Route {
             Route::FromScoresFourReversed => "Scoring::from_scores+four-setters",
             Route::FromScoresPairs => "Scoring::from_scores+xclip+yclip",
             Route::ScoringNewPairsThenSuffix => "Scoring::new+yclip+xclip+suffix-setters",
+            Route::LiteralForeignHint => "Scoring-literal+foreign-match_scores",
         }
     }
     /// can this route express the clip quadruple?
@@ -662,7 +668,30 @@ fn call_via_route(route: Route, s: &Scheme, x: &[u8], y: &[u8]) -> Result<Alignm
             let sc = Scoring::new(go, ge, f).yclip(c[2]).xclip(c[0]).xclip_suffix(c[1]).yclip_suffix(c[3]);
             Aligner::with_scoring(sc).custom(x, y)
         }
+        Route::LiteralForeignHint => {
+            let sc = Scoring {
+                gap_open: go,
+                gap_extend: ge,
+                match_fn: f,
+                match_scores: foreign_hint(sub.kind),
+                xclip_prefix: c[0],
+                xclip_suffix: c[1],
+                yclip_prefix: c[2],
+                yclip_suffix: c[3],
+            };
+            Aligner::with_scoring(sc).custom(x, y)
+        }
     })
+}
+
+/// a (match, mismatch) pair that is NOT the one `match_fn` of this kind implements
+fn foreign_hint(kind: u8) -> Option<(i32, i32)> {
+    match kind {
+        0 => Some((2, -3)),
+        1 => Some((1, -1)),
+        2 => Some((5, -4)),
+        _ => Some((1, -1)),
+    }
 }
 
 /// the `Scoring` value a route produces must carry exactly the requested penalties (public fields)
@@ -672,7 +701,7 @@ fn scoring_fields_via_route(route: Route, s: &Scheme) -> Result<Option<(i32, i32
     let (go, ge) = (s.gap_open, s.gap_extend);
     let c = s.clips();
     guard(move || match route {
-        Route::AlignerNew | Route::AlignerWithCapacity => None,
+        Route::AlignerNew | Route::AlignerWithCapacity | Route::LiteralForeignHint => None,
         Route::ScoringNewFour => {
             let sc = Scoring::new(go, ge, f).xclip_prefix(c[0]).xclip_suffix(c[1]).yclip_prefix(c[2]).yclip_suffix(c[3]);
             Some((sc.gap_open, sc.gap_extend, [sc.xclip_prefix, sc.xclip_suffix, sc.yclip_prefix, sc.yclip_suffix]))
@@ -809,7 +838,7 @@ impl Prop for C01Prop {
             "gap_open": GAP_OPEN, "gap_extend": GAP_EXTEND,
             "clip_penalties": "{MIN_SCORE,0,-1,-4}^4 (all 256)",
             "byte_embeddings": ["a,b", "0x00,0xFF", "0x7F,0x80"],
-            "constructors": "with_scoring, with_capacity_and_scoring(0,0), with_capacity_and_scoring(m,n); constructor units: Aligner::new, Aligner::with_capacity, Scoring::new / Scoring::from_scores followed by xclip/yclip/xclip_prefix/xclip_suffix/yclip_prefix/yclip_suffix in four orders, each on every scheme the route can express x every pair over {a,b}^<=3",
+            "constructors": "with_scoring, with_capacity_and_scoring(0,0), with_capacity_and_scoring(m,n); constructor units: Aligner::new, Aligner::with_capacity, Scoring::new / Scoring::from_scores followed by xclip/yclip/xclip_prefix/xclip_suffix/yclip_prefix/yclip_suffix in four orders, a struct literal whose match_scores hint does not describe match_fn, each on every scheme the route can express x every pair over {a,b}^<=3",
             "history_depth": tier.pick(3, 4), "history_alphabet": "4 modes x 52 input pairs (3 long + all of {a,b}^<=2 squared), 8 schemes x 3 constructors; BFS stops early when no new object state appears",
         })
     }
